@@ -44,9 +44,11 @@ def lean_type(t) -> str:
             return f"Option {lean_type_atom(t[1])}"
         if t[0] == "tuple":
             return " × ".join(lean_type_atom(x) for x in t[1])
+        if t[0] == "dict":
+            return f"List (String × {lean_type_atom(t[1])})"
     return {"int": "Int", "nat": "Nat", "bool": "Bool", "dir": "Dir", "mode": "Mode", "agent": "Agent", "num": "Num", "R": "R",
             "coords": "List Coord", "es": "ES R", "unit": "Unit", "gen": "List Agent", "cfg": "StopCfg R", "book": "Book R",
-            "A": "α", "str": "String", "task": "τ", "self": "Self R σ τ", "objval": "ObjVal", "raws": "List Raw", "tasksem": "TaskSem", "vd": "VarDecl", "var": "Var", "vdget": "VarGet", "raw": "Raw", "coord": "Coord", "bentry": "BEntry"}[t]
+            "A": "α", "str": "String", "task": "τ", "self": "Self R σ τ", "objval": "ObjVal", "raws": "List Raw", "tasksem": "TaskSem", "vd": "VarDecl", "var": "Var", "vdget": "VarGet", "raw": "Raw", "coord": "Coord", "bentry": "BEntry", "decoded": "TaskDecl.Decoded", "darg": "TaskDecl.DArg"}[t]
 
 
 def lean_type_atom(t) -> str:
@@ -190,6 +192,8 @@ SPEC = [
          selfr={"choices": ("choices", L(L("A")))}, children=("discmulti_children", "choices"), uses_var_dispatch=True),
     dict(name="task_get_bounds", src=("models.py", "Task.get_bounds"), params={}, ret=T(L("bentry"), L("bentry")), selfr={"variables": ("variables", L("vd"))},
          uses_dispatch=True, extra=[("permUb", "Nat → Num")], locals={"lb": L("bentry"), "ub": L("bentry")}),
+    dict(name="task_transform_solution", src=("models.py", "Task.transform_solution"), params={"x": "coords"}, ret=("dict", "decoded"),
+         selfr={"variables": ("variables", L("vd"))}, uses_dispatch=True, extra=[("name_of", "VarDecl → String")], locals={"solution": ("dict", "decoded")}),
     dict(name="task_get_variables", src=("models.py", "Task.get_variables"), params={}, ret=L("var"), selfr={"variables": ("variables", L("vd"))}, uses_dispatch=True),
     dict(name="task_correct_solution", src=("models.py", "Task.correct_solution"), params={"solution": "raws"}, ret="coords",
          selfr={"variables": ("variables", L("vd"))}, uses_dispatch=True),
@@ -289,6 +293,8 @@ class Fn:
             return f"({term} : Int)"
         if ty == "emptylist" and isinstance(want, tuple) and want[0] == "list":
             return "[]"
+        if ty == "emptydict" and isinstance(want, tuple) and want[0] == "dict":
+            return "[]"
         if ty == "coords" and want == "raws":
             return f"({atom(term)}.map Coord.toRaw)"
         if ty == "coords" and want == O("raws"):
@@ -378,6 +384,10 @@ class Fn:
                     return RESULT_FIELDS[n.attr]
             if isinstance(n.value, ast.Name) and env.get(n.value.id, (None, None))[1] == "task" and self.spec.get("hooks") and n.attr in ("minmax", "seed"):
                 return f"(H.task_{n.attr} {env[n.value.id][0]})", {"minmax": "dir", "seed": "int"}[n.attr]
+            if n.attr == "name" and "name_of" in [e[0] for e in self.spec.get("extra", [])]:
+                bt, bty = self.E(n.value, env)
+                if bty == "vd":
+                    return f"(name_of {atom(bt)})", "str"
             if n.attr == "agents":      # Population.agents: a recorded generation is its list of agents
                 bt, bty = self.E(n.value, env)
                 if bty == L("agent"):
@@ -396,6 +406,16 @@ class Fn:
                 return "[]", "emptylist"
             parts = [self.E(e, env) for e in n.elts]
             return "[" + ", ".join(p for p, _ in parts) + "]", L(parts[0][1])
+        if isinstance(n, ast.Dict):
+            if not n.keys:
+                return "[]", "emptydict"
+            if len(n.keys) == 1 and n.keys[0] is not None:
+                k, kty = self.E(n.keys[0], env)
+                v, vty = self.E(n.values[0], env)
+                if kty != "str":
+                    self.err(n, f"dict key of type {kty}")
+                return f"[({k}, {v})]", ("dict", vty)
+            self.err(n, "dict literal with several entries")
         if isinstance(n, ast.UnaryOp):
             v, ty = self.E(n.operand, env)
             if isinstance(n.op, ast.Not):
@@ -421,6 +441,11 @@ class Fn:
             c, cty = self.E(n.test, env)
             a, aty = self.E(n.body, env)
             b, bty = self.E(n.orelse, env)
+            if {repr(norm_type(aty)), repr(norm_type(bty))} == {repr("coord"), repr(L("coord"))}:
+                # `temp if v.has_children() else temp[0]`: the slice, or its first coordinate — what `decode` is handed
+                a = f"(TaskDecl.DArg.many {atom(a)})" if norm_type(aty) == L("coord") else f"(TaskDecl.DArg.one {atom(a)})"
+                b = f"(TaskDecl.DArg.many {atom(b)})" if norm_type(bty) == L("coord") else f"(TaskDecl.DArg.one {atom(b)})"
+                aty = bty = "darg"
             if {repr(aty), repr(bty)} == {repr("bentry"), repr(L("bentry"))}:
                 # `lb_ if v.has_children() else [lb_]`: the numbers of a list-valued bound, or the bound itself as one entry
                 a = f"(← Py.bentryAsList {atom(a)})" if aty == "bentry" else a
@@ -615,6 +640,7 @@ class Fn:
 
     def subscript(self, n, env):
         base, bty = self.E(n.value, env)
+        bty = norm_type(bty)
         if not (isinstance(bty, tuple) and bty[0] == "list"):
             self.err(n, f"subscript of a {bty}")
         s = n.slice
@@ -698,6 +724,7 @@ class Fn:
             name = f.id
             if name == "len" and len(n.args) == 1:
                 t, ty = self.E(n.args[0], env)
+                ty = norm_type(ty)
                 if isinstance(ty, tuple) and ty[0] == "list":
                     return f"(Py.len {atom(t)})", "int"
                 self.err(n, f"len of a {ty}")
@@ -882,6 +909,12 @@ class Fn:
                 if rty == "vd":
                     self.need_eff(n)
                     return f"(← vd_get_bounds permUb {atom(rt)})", T("bentry", "bentry")
+            if f.attr == "decode" and len(n.args) == 1 and not n.keywords and self.spec.get("uses_dispatch"):
+                rt, rty = self.E(f.value, env)
+                a, aty = self.E(n.args[0], env)
+                if rty == "vd" and aty == "darg":
+                    self.need_eff(n)
+                    return f"(← TaskDecl.decodeVar {atom(rt)} {atom(a)})", "decoded"
             if f.attr == "correct" and len(n.args) == 1 and not n.keywords and self.spec.get("uses_dispatch"):
                 rt, rty = self.E(f.value, env)
                 a, aty = self.E(n.args[0], env)
@@ -1240,6 +1273,15 @@ class Fn:
         self.err(target, f"assignment target for a {ty}")
 
     def assign(self, target, value, env, pad):
+        if isinstance(target, ast.Subscript) and isinstance(target.value, ast.Name) and target.value.id in env \
+                and isinstance(env[target.value.id][1], tuple) and env[target.value.id][1][0] == "dict" and target.value.id in self.muts:
+            d, dty = env[target.value.id]
+            k, kty = self.E(target.slice, env)
+            v, vty = self.E(value, env)
+            if kty != "str" or vty != dty[1]:
+                self.err(target, f"dict store of a {vty} under a {kty} key")
+            self.lines.append(f"{pad}{d} := Py.dictSet {d} {atom(k)} {atom(v)}")
+            return
         if self.spec.get("init_children") and self.self_path(target) == "_children":
             v, vty = self.E(value, env, self.spec["ret"])
             if vty != self.spec["ret"]:
@@ -1284,6 +1326,9 @@ class Fn:
                 src = value.id if isinstance(value, ast.Name) else None
                 if target.id in self.inplace or (src is not None and src in self.inplace) or (src is None and self.self_path(value) is not None):
                     self.err(value, "alias of a list that is edited in place")
+            if vty == "emptydict":
+                vty = want if want is not None else self.forward_type(target.id, value)
+                v = "[]"
             if vty in ("emptylist", "none", "intlit"):
                 if want is not None:
                     v = self.coerce(v, vty, want, value)
@@ -1582,6 +1627,8 @@ class Fn:
                             counts[nm.id] = counts.get(nm.id, 0) + (2 if isinstance(node, ast.AugAssign) else 1)
             if isinstance(node, ast.Call) and isinstance(node.func, ast.Attribute) and node.func.attr in ("sort", "append", "extend") and isinstance(node.func.value, ast.Name):
                 counts[node.func.value.id] = counts.get(node.func.value.id, 0) + 2
+            if isinstance(node, ast.Assign) and isinstance(node.targets[0], ast.Subscript) and isinstance(node.targets[0].value, ast.Name):
+                counts[node.targets[0].value.id] = counts.get(node.targets[0].value.id, 0) + 2
             if isinstance(node, ast.For):      # anything assigned inside a loop body is reassigned
                 for sub in ast.walk(node):
                     if isinstance(sub, ast.Assign):
@@ -1668,7 +1715,7 @@ def norm_type(t):
         return L("raw")
     if t == "coords":
         return L("coord")
-    if isinstance(t, tuple) and t[0] in ("list", "opt"):
+    if isinstance(t, tuple) and t[0] in ("list", "opt", "dict"):
         return (t[0], norm_type(t[1]))
     if isinstance(t, tuple) and t[0] == "tuple":
         return ("tuple", [norm_type(x) for x in t[1]])
